@@ -35,7 +35,7 @@ func genLost(r *rng, index int) *Spec {
 	var conds []string
 	for _, h := range ha[1:] {
 		at := T + 300 + int64(r.intn(2500))
-		cond := []string{"streaming", "streaming", "not_semi", "stopped", "own_master", "refusing", "timing_out", "io_stopped"}[r.intn(8)]
+		cond := []string{"streaming", "streaming", "not_semi", "stopped", "own_master", "refusing", "timing_out", "io_stopped", "sql_stopped", "sql_error"}[r.intn(10)]
 		conds = append(conds, h+"="+cond)
 		switch cond {
 		case "not_semi":
@@ -46,6 +46,11 @@ func genLost(r *rng, index int) *Spec {
 			sp.Timeline = append(sp.Timeline, TLEvent{AtMs: at, Kind: "sql", Host: h, Arg: "STOP SLAVE FOR CHANNEL ''"})
 		case "io_stopped":
 			sp.Timeline = append(sp.Timeline, TLEvent{AtMs: at, Kind: "sql", Host: h, Arg: "STOP SLAVE IO_THREAD FOR CHANNEL ''"})
+		case "sql_stopped":
+			// still downloading, not applying
+			sp.Timeline = append(sp.Timeline, TLEvent{AtMs: at, Kind: "sql", Host: h, Arg: "STOP SLAVE SQL_THREAD FOR CHANNEL ''"})
+		case "sql_error":
+			sp.Timeline = append(sp.Timeline, TLEvent{AtMs: at, Kind: "repl_error", Host: h, N: int64(r.pickInt(1062, 1032)), Arg: "sql"})
 		case "own_master":
 			sp.Timeline = append(sp.Timeline, TLEvent{AtMs: at, Kind: "sql", Host: h, Arg: "STOP SLAVE FOR CHANNEL ''"})
 			sp.Timeline = append(sp.Timeline, TLEvent{AtMs: at + 10, Kind: "sql", Host: h, Arg: "RESET SLAVE ALL FOR CHANNEL ''"})
